@@ -30,9 +30,11 @@ type TOp struct {
 	Vid    int    `json:"vid,omitempty"`
 	Status int    `json:"status,omitempty"`
 	// response: how the retry-after header is given
-	HdrKind string `json:"retry_after_kind,omitempty"` // ok|missing|wrongcase|garbage
-	RAg     int64  `json:"retry_after_grid,omitempty"` // value in units of 1/512 s (relative: duration; absolute: epoch instant)
+	HdrKind string `json:"retry_after_kind,omitempty"`          // ok|missing|wrongcase|garbage
+	RAg     int64  `json:"retry_after_grid,omitempty"`          // value in units of 1/512 s (relative: duration; absolute: epoch instant)
+	RAhalf  int64  `json:"retry_after_extra_half_ns,omitempty"` // absolute epoch only: the header value is RAg/512 s + RAhalf * 0.5 ns (odd: half a ns away from the truncation of epoch - now)
 	HdrVal  string `json:"retry_after_value,omitempty"`
+	RAns    int64  `json:"retry_after_model_ns,omitempty"` // what the case hands to the model (see raModelNs)
 	Sid     int    `json:"resp,omitempty"`
 	D       int64  `json:"advance_ns,omitempty"`
 
@@ -44,7 +46,8 @@ type TOp struct {
 	RHdrSet  bool   `json:"r_retry_after_present,omitempty"`
 	RNs      int64  `json:"r_retry_after_ns,omitempty"`
 	Unexpect bool   `json:"unexpected,omitempty"`
-	Stored   bool   `json:"sleeper_started,omitempty"`
+	Stored   bool   `json:"stored,omitempty"`           // resp: the cache holds this response afterwards
+	Slp      int    `json:"sleepers_started,omitempty"` // resp: sleepers that registered with the clock
 	Bad      bool   `json:"bad,omitempty"`
 	Held     int    `json:"held_entries"`
 }
@@ -73,6 +76,45 @@ func decimalToNs(s string) (int64, bool) {
 		return 0, false
 	}
 	return q.Int64(), true
+}
+
+// headerValue: the decimal text of the retry-after header (exact).
+func headerValue(g, half int64) string {
+	if half == 0 {
+		return gridSeconds(g)
+	}
+	r := new(big.Rat).SetFrac(
+		new(big.Int).Add(new(big.Int).Mul(big.NewInt(2*g), big.NewInt(G)), big.NewInt(half)),
+		big.NewInt(2000000000))
+	return r.FloatString(10)
+}
+
+// raModelNs: the retry-after value of a response in integer ns as the model
+// takes it. Relative: the header value (on the grid). Absolute epoch: the
+// header instant after the code's conversion of (epoch - now) seconds to a
+// time.Duration, which truncates towards zero: now + trunc(epoch - now). On
+// the grid that is the epoch itself. Off the grid the harness only uses
+// instants in the past of `now` that are half a ns away from the truncation
+// boundary, so that float64 rounding cannot change the result.
+func raModelNs(abs bool, g, half, now int64) int64 {
+	if half == 0 {
+		return g * G
+	}
+	d2 := 2*(g*G-now) + half // (epoch - now) in half ns
+	if !abs || d2 >= 0 || d2%2 == 0 {
+		panic("c12 harness: off-grid retry-after only as an absolute epoch in the past, at an odd number of half ns")
+	}
+	return now + d2/2 // Go integer division truncates towards zero
+}
+
+// cmpDecimalSecondsNs compares the decimal number of seconds s with at (ns), exactly.
+func cmpDecimalSecondsNs(s string, at int64) (int, bool) {
+	r, ok := new(big.Rat).SetString(s)
+	if !ok {
+		return 0, false
+	}
+	r.Mul(r, big.NewRat(1000000000, 1))
+	return r.Cmp(new(big.Rat).SetInt64(at)), true
 }
 
 func throttleHeaders(o *TOp) map[string]string {
@@ -158,7 +200,8 @@ func (r *throttleRun) do(o TOp) {
 		}
 	case "resp":
 		if o.HdrKind == "ok" || o.HdrKind == "wrongcase" {
-			o.HdrVal = gridSeconds(o.RAg)
+			o.HdrVal = headerValue(o.RAg, o.RAhalf)
+			o.RAns = raModelNs(r.conf.RetryAfterType == sharedConfig.RetryAfterAbsoluteEpoch, o.RAg, o.RAhalf, o.At)
 		}
 		act, err := r.plugin.OnResponse(lunarMessages.OnResponse{
 			ID: respID(o.Vid), SequenceID: respID(o.Vid), Method: o.Method, URL: o.URL,
@@ -167,8 +210,15 @@ func (r *throttleRun) do(o TOp) {
 		if _, ok := act.(*actions.NoOpAction); !ok || err != nil {
 			o.Unexpect = true
 		}
-		if r.w.settle(-1) == 1 {
-			o.Stored = true
+		if cache := r.plugin.VerifC12Cache(); cache != nil {
+			_, vals, _, _ := cache.VerifC12Snapshot()
+			for _, v := range vals {
+				if v.ID == respID(o.Vid) {
+					o.Stored = true
+				}
+			}
+		}
+		if o.Slp = r.w.settle(o.Stored); o.Slp > 0 {
 			r.sleeper[idx] = r.w.reg - 1
 		}
 		r.resps = append(r.resps, o)
@@ -226,7 +276,7 @@ func throttleCoq(k *ThrottleCase) string {
 		case "resp":
 			ra := "None"
 			if o.HdrKind == "ok" {
-				ra = c.Some(c.Z(o.RAg * G))
+				ra = c.Some(c.Z(o.RAns))
 			}
 			op = fmt.Sprintf("TResp %d %s %s %d %d %s %s", i, c.Bytes(o.Method), c.Bytes(o.URL), o.Status, o.Vid, ra, c.Z(o.At))
 			out = "TDone"
@@ -288,10 +338,10 @@ func throttleMonitor(k *ThrottleCase) []c.Hit {
 					fmt.Sprintf("header %q present=%v", o.RHdr, o.RHdrSet))
 			}
 		default: // absolute epoch
-			e := src.RAg * G
-			if o.At > e {
-				add("expired-hit:throttle-absolute-epoch", fmt.Sprintf("op %d: no replay after the provider's instant %d ns", i, e),
-					fmt.Sprintf("replayed at %d (response received at %d)", o.At, src.At))
+			e := src.RAg*G + src.RAhalf/2
+			if cmp, ok := cmpDecimalSecondsNs(src.HdrVal, o.At); !ok || cmp < 0 {
+				add("expired-hit:throttle-absolute-epoch", fmt.Sprintf("op %d: no replay after the provider's instant %s s", i, src.HdrVal),
+					fmt.Sprintf("replayed at %d ns (response received at %d ns)", o.At, src.At))
 				break
 			}
 			if !o.RHdrSet || o.RNs < e-slack || o.RNs > e+slack {
@@ -345,6 +395,21 @@ func throttleRecord(o *c.Out, k *ThrottleCase) {
 	o.CountN("throttle.not_stored", notStored)
 	o.CountN("throttle.probes_at_expiry±1ns", boundary)
 	o.CountN("throttle.replays_with_decremented_retry_after", decremented)
+	for _, op := range k.Ops {
+		if op.Kind == "resp" && op.HdrKind == "ok" && k.Conf.Type != "undefined" {
+			past := op.RAg <= 0
+			if k.Conf.Type == "absolute_epoch" {
+				cmp, _ := cmpDecimalSecondsNs(op.HdrVal, op.At)
+				past = cmp <= 0
+			}
+			if past {
+				o.Count("throttle.responses_with_retry_after_not_in_the_future")
+				if op.Stored {
+					o.Count("throttle.stored_with_ttl<=0")
+				}
+			}
+		}
+	}
 	nontrivial := hit > 0 && miss > 0 && boundary > 0
 	idx := o.Case("throttle", throttleCoq(k), k, nontrivial)
 	o.MonitorChecked(1)
@@ -358,7 +423,7 @@ func replayThrottle(o *c.Out, k *ThrottleCase) {
 	r := newThrottleRun(k.Conf, k.T0)
 	for _, op := range k.Ops {
 		r.do(TOp{Kind: op.Kind, Method: op.Method, URL: op.URL, Vid: op.Vid, Status: op.Status,
-			HdrKind: op.HdrKind, RAg: op.RAg, Sid: op.Sid, D: op.D})
+			HdrKind: op.HdrKind, RAg: op.RAg, RAhalf: op.RAhalf, Sid: op.Sid, D: op.D})
 	}
 	r.finish()
 	throttleRecord(o, r.k)
@@ -395,9 +460,13 @@ func genThrottleHistory(o *c.Out, rng *c.Rng, t0 int64) {
 			if abs {
 				nowG := r.now() / G
 				secG := (r.now() / sec) * 512 // whole second of the clock, in grid units
-				op.RAg = c.Pick(rng, []int64{secG + 512, secG + 1024, secG + 1024, secG + 1536, nowG + 2, nowG + 1, nowG, nowG - 1, secG, secG - 512})
+				op.RAg = c.Pick(rng, []int64{secG + 512, secG + 1024, secG + 1024, secG + 1536, nowG + 2, nowG + 1, nowG, nowG - 1, secG, secG - 512,
+					nowG + 512, nowG, nowG - 512, 0, 512})
+				if rng.Chance(1, 16) {
+					op.RAg, op.RAhalf = nowG, -3 // 1.5 ns before now: a time-to-live of -1 ns
+				}
 			} else {
-				op.RAg = c.Pick(rng, []int64{2, 1, 512, 512, 1024, 1536, 1536, 0, -512, 768})
+				op.RAg = c.Pick(rng, []int64{2, 1, 512, 512, 1024, 1536, 1536, 0, -512, 768, 0, -1, 512, -512 * 1000000})
 			}
 			r.do(op)
 			if last := r.k.Ops[len(r.k.Ops)-1]; last.Stored {
@@ -444,4 +513,93 @@ func genThrottleHistory(o *c.Out, rng *c.Rng, t0 int64) {
 	}
 	r.finish()
 	throttleRecord(o, r.k)
+}
+
+// genThrottleNonPositiveTTL: a throttling response whose retry-after time is
+// not in the future when it is received (absolute epoch equal to now, 1 ns /
+// one grid step / 1 s / 1 h in the past, epoch 0 and 1; relative 0 and
+// negative values). The same request is probed at +0, +1 ns, +1 s, +1 h;
+// then a second throttling response for the same method and URL, with a
+// retry-after time in the future, must be able to take the place of the dead
+// entry and is probed across its own expiry; the sleeper of the first fires
+// never / before / after the second store. A request for another URL runs
+// alongside. One positive value (+1 grid step) for contrast.
+func genThrottleNonPositiveTTL(o *c.Out, t0 int64) {
+	type ra struct {
+		abs     bool
+		g, half int64 // abs: relative to now's grid index
+	}
+	var ras []ra
+	for _, d := range []int64{0, -1, -512, -512 * 3600, 1} {
+		ras = append(ras, ra{true, d, 0}, ra{false, d, 0})
+	}
+	ras = append(ras, ra{true, 0, -3}, ra{false, -512 * 1000000, 0})
+	for _, x := range ras {
+		for _, epoch := range []int64{-1, 0, 512} { // abs only: epoch given absolutely (0 s, 1 s) instead
+			if epoch >= 0 && !(x.abs && x.g == 0 && x.half == 0) {
+				continue
+			}
+			for fireAt := 0; fireAt < 3; fireAt++ {
+				for _, m := range []int64{0, 100, 511} { // sub-second part of the clock when the response arrives
+					cf := ThrottleConf{Type: "relative_seconds", Statuses: []int{429}}
+					if x.abs {
+						cf.Type = "absolute_epoch"
+					}
+					r := newThrottleRun(cf, t0+m*G)
+					probe := func() {
+						r.do(TOp{Kind: "req", Method: "GET", URL: "a.com/x"})
+						r.do(TOp{Kind: "req", Method: "GET", URL: "a.com/y"})
+					}
+					firePending := func(sid int) {
+						if _, ok := r.sleeper[sid]; ok {
+							r.do(TOp{Kind: "fire", Sid: sid})
+						}
+					}
+					val := func(d, half int64) (int64, int64) {
+						if x.abs {
+							return r.now()/G + d, half
+						}
+						return d, 0
+					}
+					g, half := val(x.g, x.half)
+					if epoch >= 0 {
+						g, half = epoch, 0
+					}
+					r.do(TOp{Kind: "resp", Method: "GET", URL: "a.com/x", Vid: 101, Status: 429, HdrKind: "ok", RAg: g, RAhalf: half})
+					first := len(r.k.Ops) - 1
+					probe() // +0
+					r.do(TOp{Kind: "adv", D: 1})
+					probe() // +1 ns
+					r.do(TOp{Kind: "adv", D: sec - 1})
+					probe() // +1 s
+					r.do(TOp{Kind: "adv", D: 3599 * sec})
+					probe() // +1 h
+					if fireAt == 1 {
+						firePending(first)
+					}
+					g2, _ := val(512, 0) // one second ahead
+					r.do(TOp{Kind: "resp", Method: "GET", URL: "a.com/x", Vid: 102, Status: 429, HdrKind: "ok", RAg: g2})
+					second := len(r.k.Ops) - 1
+					probe() // +0 of the second store
+					if fireAt == 2 {
+						firePending(first)
+						probe()
+					}
+					r.do(TOp{Kind: "adv", D: sec - 1})
+					probe() // 1 ns before the new retry-after time
+					r.do(TOp{Kind: "adv", D: 1})
+					probe() // at it
+					r.do(TOp{Kind: "adv", D: 1})
+					probe() // 1 ns after it
+					firePending(second)
+					r.do(TOp{Kind: "adv", D: G - 1})
+					g3, _ := val(0, 0) // again not in the future
+					r.do(TOp{Kind: "resp", Method: "GET", URL: "a.com/x", Vid: 103, Status: 429, HdrKind: "ok", RAg: g3})
+					probe()
+					r.finish()
+					throttleRecord(o, r.k)
+				}
+			}
+		}
+	}
 }
